@@ -259,3 +259,33 @@ def resubscription_mismatch(ast, trace, runs=2):
             return 'subscription %d of the same pipeline emits %s while event %d is pushed, the first subscription emitted %s' % (
                 j + 1, json.dumps(rs_[j]['steps'][p])[:200], p, json.dumps(rs_[0]['steps'][p])[:200])
     return None
+
+
+def hostile_environment_failure(case, obs):
+    """Generic judgements for every mux module: the delivered stream is well-formed; and an environment behaviour every keyed pipeline must tolerate, tried on a deterministic quarter of the cases of
+    every mux module (tee_map excluded: publish() is single-use): the pipeline object is subscribed a second time.
+    (A subscriber that mutates what it receives is NOT a sound generic test: operators legitimately keep references
+    to the items they were given - lag, distinct_until_changed, a running max - so it is applied only where the
+    emitted value is created by the operator itself: the reduce results of C09.)"""
+    import zlib
+    if not isinstance(case, dict) or 'ast' not in case or 'trace' not in case or case.get('errthru'):
+        return None
+    if 'raised' in obs or 'steps' not in obs:
+        return None
+    ast = strip_taps(case['ast'])
+    ks = kinds(ast)
+    # the stream handed to the subscriber is itself a boundary (C03): on a well-formed input without source errors
+    # it must be well-formed whatever the pipeline - e.g. a result delivered after its key's completion
+    if not any(e[0] == 'e' for e in case['trace']) and not has_fatal(obs['steps']):
+        final = [o for st in obs['steps'] for o in st if o[0] in ('c', 'n', 'd', 'e')]
+        v = protocol_violation(final)
+        if v:
+            return {'sig': 'environment:output-protocol', 'what': 'stream delivered to the subscriber: ' + v}
+    if 'tee' in ks:
+        return None
+    sel = zlib.crc32(json.dumps([ast, case['trace']], sort_keys=True, default=repr).encode()) % 4
+    if sel == 0:
+        m = resubscription_mismatch(ast, case['trace'])
+        if m:
+            return {'sig': 'environment:re-subscription', 'what': m}
+    return None
